@@ -298,6 +298,8 @@ theorem siteEntries_congr {st st' : StatFn} (h : Agree st st') (hr : RootNotFile
     cases hd : dispatch c st sel with
     | notFound => rfl
     | file => rfl
+    | url => rfl
+    | htmlFile => rfl
     | dir =>
       simp only
       unfold kidsAt
@@ -328,8 +330,10 @@ theorem siteEntries_congr {st st' : StatFn} (h : Agree st st') (hr : RootNotFile
       | none => rfl
       | some d => simp only [Option.bind_some]; exact gmParse_congr _ _ _ _ _ _ hpop _
   · have hns : secureB c.forbidden sel = false := by simpa using hs
-    have : dispatch c st sel = .notFound := by unfold dispatch; simp [hns]
-    rw [this]
+    have : dispatch c st sel = .notFound ∨ dispatch c st sel = .url := by
+      unfold dispatch
+      by_cases hu : (c.url && urlSecureB c.urlForbidden sel) = true <;> simp [hu, hns]
+    rcases this with h1 | h1 <;> rw [h1]
 
 /-! ## well-formed trees: every directory reached below a well-formed root holds valid names -/
 
